@@ -14,6 +14,7 @@ MODEL of the code (Kap/Model/C18.lean, tied to /repo by the correspondence run) 
   * for batches: for EVERY list of batches, relative to the input rewritten by exactly the three recorded deviations.
 -/
 import Kap.Proofs.C18Live
+import Kap.Proofs.C18Sink
 namespace Kap.Props.C18
 open Kap.C18
 
@@ -552,10 +553,13 @@ theorem stale_scratch_contaminates_next_recording :
         = [([], 1), ([100,98,65], 2), ([100,98,66], 5)]
     ∧ (recordScratch true (recordScratch true [] ⟨[], some 3⟩ fA).1 ⟨[], none⟩ fB).2.out = writeFrames fB := by
   decide
-/-- Stated, not proved (tied by the correspondence run on every fault case, `cut` line): the writer as it is leaves in a
-sink with room for `k` bytes exactly the first `k` bytes of the recording. -/
-def failed_recording_holds_prefix_stmt : Prop :=
-  ∀ (k : Nat) (fs : List Frame), (recordInto ⟨[], some k⟩ fs).out = (writeFrames fs).take k
+/-- **A failed recording holds a prefix**: the writer as it is (three writes per point, stop at the first error, the
+recorder ignoring the error and going on with the next point) leaves in a sink with room for `k` bytes exactly the first
+`k` bytes of the recording — for every `k` and every list of records (also tied by the correspondence run on every fault
+case, `cut` line). -/
+theorem failed_recording_holds_prefix (k : Nat) (fs : List Frame) :
+    (recordInto ⟨[], some k⟩ fs).out = (writeFrames fs).take k := by
+  simpa using recordInto_some fs [] k
 
 /-- One evaluated instance per class of `k` (before the first record, inside db/rp, inside the line, before the last
 line feed, between two records, never reached). -/
